@@ -210,6 +210,12 @@ def gen_main(rnd, tier):
         names = ioops.NAMES + (ioops.KEYWORD_NAMES if kw else [])
         g = C01.despace(ioops.gen_tg(rnd, rnd.choice(["full", "simple"]), labels=labels, names=names), rnd)
         c = {"op": "write", "tg": g, "blanks": rnd.random() < 0.7, "stream": "keyword" if kw else "plain"}
+        if not c["blanks"] and rnd.random() < 0.35:
+            # a tier whose own span is narrower than the textgrid's (written verbatim when blank filling is off): the file
+            # must carry the tier's own xmin/xmax, not the textgrid's
+            c["tg"] = g = C01.narrow_one_tier(g, rnd)
+            yield c
+            continue
         if rnd.random() < 0.3:
             c["max"] = rnd.choice([g["hi"], g["hi"] + 1.0, g["hi"] + 0.123])
         if rnd.random() < 0.1:
